@@ -243,8 +243,19 @@ def askProposal (w : W) (h v : Nat) : W × Option Block :=
       (w, if ctxDone w id then none else some b)
     | _ => (w.emit (.goPanic "missing SPI answer"), none)
 
+/-- a node that holds a prepared certificate refuses a stand-alone PREPREPARE of a later view for another hash -/
+def lockConflict (n : Node) (ppm : PPMsg) : Bool :=
+  match n.prepared with
+  | none => false
+  | some pv =>
+    decide (ppm.c.header.view > pv) &&
+      (match n.store.getPP ppm.c.header.height pv with
+       | some locked => locked.c.header.hash != ppm.c.header.hash
+       | none => false)
+
 def handlePrePrepare (w : W) (ppm : PPMsg) : W :=
   if !validatePreprepare w.n ppm then w
+  else if lockConflict w.n ppm then w
   else
     let hd := ppm.c.header
     let (w, ok) := askValidate w hd.height hd.view ppm.block hd.hash
